@@ -12903,3 +12903,70 @@ a=mid:0
         assert!(!extmap_value(crate::sdp::ABS_SEND_TIME_URI).starts_with("3 "));
     }
 }
+
+/// Verification hooks (H5): read-only snapshot of the signaling-related state, and a way to reach
+/// the "DTLS transport has started" condition without a network. Compiled only with
+/// `--cfg rustrtc_verif`.
+#[cfg(rustrtc_verif)]
+impl PeerConnection {
+    pub fn verif_snapshot(&self) -> crate::verif_hooks::peer::PeerSnapshot {
+        use crate::verif_hooks::peer::{PeerSnapshot, TransceiverSnapshot};
+        let transceivers = self
+            .inner
+            .transceivers
+            .lock()
+            .iter()
+            .map(|t| {
+                let mut payload_map: Vec<(u8, RtpCodecParameters)> =
+                    t.get_payload_map().into_iter().collect();
+                payload_map.sort_by_key(|(pt, _)| *pt);
+                let mut extmap: Vec<(u8, String)> = t.get_extmap().into_iter().collect();
+                extmap.sort_by_key(|(id, _)| *id);
+                TransceiverSnapshot {
+                    id: t.id(),
+                    kind: t.kind(),
+                    mid: t.mid(),
+                    direction: t.direction(),
+                    payload_map,
+                    extmap,
+                    has_sender: t.sender.lock().is_some(),
+                    has_sender_ssrc: t.sender_ssrc.lock().is_some(),
+                }
+            })
+            .collect();
+        PeerSnapshot {
+            signaling_state: *self.inner.signaling_state.borrow(),
+            local_description: self.inner.local_description.lock().clone(),
+            remote_description: self.inner.remote_description.lock().clone(),
+            transceivers,
+            next_mid: self.inner.next_mid.load(Ordering::SeqCst),
+            dtls_started: self.inner.dtls_transport.lock().is_some(),
+            remote_dtls_fingerprint: self.inner.remote_dtls_fingerprint.lock().clone(),
+            dtls_role: *self.inner.dtls_role.borrow(),
+            local_dtls_fingerprint: self.inner.dtls_fingerprint.clone(),
+        }
+    }
+
+    /// Installs a (never started) `DtlsTransport` over an unconnected `IceConn`, which is exactly the
+    /// condition `set_remote_description` tests with `dtls_transport.lock().is_some()`.
+    pub async fn verif_mark_dtls_started(&self) -> RtcResult<()> {
+        let (_tx, rx) = watch::channel(None);
+        let conn = IceConn::new(
+            rx,
+            std::net::SocketAddr::new(IpAddr::V4(std::net::Ipv4Addr::UNSPECIFIED), 0),
+            None,
+        );
+        let fp = self.inner.remote_dtls_fingerprint.lock().clone();
+        let (dtls, _incoming, _runner) = DtlsTransport::new(
+            conn,
+            self.inner.certificate.as_ref().clone(),
+            true,
+            self.config().dtls_buffer_size,
+            fp,
+        )
+        .await
+        .map_err(|e| RtcError::Internal(format!("verif: DTLS transport: {e}")))?;
+        *self.inner.dtls_transport.lock() = Some(dtls);
+        Ok(())
+    }
+}
